@@ -99,6 +99,14 @@ namespace LibfiberVerif.Join
   | .fGot q | .fGotRes q _ | .fGave q => q == p
   | _ => false
 
+/-- program points of a fiber that makes calls at which its own hand-over slot (`result`) is
+    clear: everywhere except between the hand-over by the finishing fiber (the earliest moment
+    is the deferred store that parks the joiner) and the joiner's own clearing store -/
+@[simp, grind] def slotFree : Pc → Bool
+  | .idle | .called _ _ | .tLoaded1 _ | .loaded _ _ | .jPark0 _ | .jParking _
+  | .take0 _ _ | .take _ _ _ | .wake _ _ _ _ | .retn _ _ _ _ => true
+  | _ => false
+
 @[grind →] theorem jpk_jp {c g} (h : joinerPark c g = true) : joinerPath c g = true := by
   cases c <;> simp_all
 @[grind →] theorem jp_cp {c g} (h : joinerPath c g = true) : claimPath c g = true := by
@@ -178,6 +186,12 @@ structure Inv1 (s : St) : Prop where
   gr : ∀ g p v, s.pc g = .fGotRes p v → s.retval g = some v
   gv : ∀ g p, s.pc g = .fGave p → s.retval g = some (s.res p)
   dj : ∀ g, (s.pc g = .fWoken ∨ s.pc g = .fMark ∨ s.pc g = .fDone) → (s.claimed g = true ∨ s.detX g = true)
+  sc : ∀ a, slotFree (s.pc a) = true → s.res a = 0
+  jo1 : ∀ p t, s.pc p = .jParked t → (s.res p = 0 ∨ s.retval t = some (s.res p))
+  jo2 : ∀ p t, s.pc p = .jWoken t → (s.res p = 0 ∨ s.retval t = some (s.res p))
+  jo3 : ∀ p t v, s.pc p = .jGotRes t v → (v = 0 ∨ s.retval t = some v)
+  jo4 : ∀ a op t v, s.pc a = .retn op t true v → op ≠ .detach → (v = 0 ∨ s.retval t = some v)
+  jo5 : ∀ t v, v ∈ s.succ t → (v = 0 ∨ s.retval t = some v)
 
 /-- layer 2: the protocol on targets without an opened window -/
 structure Inv2 (s : St) : Prop where
